@@ -308,7 +308,7 @@ XP_SPECW = True
 
 
 def has_when(s):
-    return any(getattr(n, "when", None) for n in s.nodes)
+    return any(vg.has_when_stmt(n) for n in s.nodes)
 
 
 def xp_laws(cx, c, ri, spec):
@@ -419,7 +419,7 @@ def xpath_family(cx, nsch=None, verbose=0):
     from checks import c08
     mask = c08.live_mask(cx)      # the XPath engine of the model mirrors exactly the deviations still listed as `known` (C08)
     for i in range(n):
-        s = vg.fam_xpath(rng, i, nwhen=(rng.choice([1, 1, 2]) if XP_WHEN else 0))
+        s = vg.fam_xpath(rng, i, nwhen=(rng.choice([1, 1, 2]) if XP_WHEN else 0), force_inh=(i % 3 == 0))
         s._origin = "xpath"
         s.xpmask = mask
         schemas.append(s)
@@ -433,7 +433,7 @@ def xpath_family(cx, nsch=None, verbose=0):
                 m = mu.mutate(t, k)
                 if m is not None:
                     mt = m[0]
-                    if not XP_WHEN_EMPTY_NP and any(n.np_cont() and getattr(n, "when", None) for n in s.nodes):
+                    if not XP_WHEN_EMPTY_NP and any(n.np_cont() and vg.has_when_stmt(n) for n in s.nodes):
                         mt = vg.prune_np(mt) or mt
                     cases.append(Case(s, mt, k, m[1], r))
     lines = []
@@ -516,6 +516,9 @@ def xpath_family(cx, nsch=None, verbose=0):
             "per origin of the instance: %s" % ("differential with the model op valx" if XP_MODEL else "libyang alone, model op not wired",
                                                  len(schemas), sum(c[0] for c in cnt), sum(c[1] for c in cnt), sum(c[2] for c in cnt),
                                                  sum(c[3] for c in cnt), len(cases), ", ".join("%s %d" % kv for kv in sorted(mix.items()))))
+    ic = [vg.xp_inh_counts(s) for s in schemas]
+    text += ("; when inherited via uses/augment: %d nodes in %d schemas; nodes with own + inherited when: %d in %d schemas"
+             % (sum(c[0] for c in ic), sum(1 for c in ic if c[0]), sum(c[1] for c in ic), sum(1 for c in ic if c[1])))
     cx.rule(text)
     print("C02 distribution: " + text)
 CLASSES = ["plain", "full-without-unique", "full"]
